@@ -30,11 +30,15 @@ RULE = ('random call graphs: 1-5 levels, 1-2 callables per level drawn from func
         'loop and if conditions; return <expr>, bare return, fall-through, control stop); enumerations and constants; '
         'model rows in permuted order; 3-7 invocations from Python per case on a random population; cases on which the '
         'reference semantics reports an error / runs out of fuel are dropped and counted; non-trivial = at least one '
-        'nested call was executed and a value other than none was delivered; distinct = distinct model text + entries')
+        'nested call was executed and a value other than none was delivered; distinct = distinct model text + entries; '
+        'families with a signature of their own: every 50th case (i % 50 == 7) a local variable named like the function / '
+        'external entity it invokes, every 50th case (i % 50 == 23) a constant or an enumeration named like a function '
+        'with a caller that uses both; instance operations and derived attributes use the NAME self (any letter case) in '
+        'relate / unrelate / delete')
 EXHAUSTIVE = {'quick': False, 'thorough': False}
 ASSUMPTIONS = ['bodies are type-correct, terminating and error-free under the reference semantics (decided by Spec)',
                'callables do not delete instances; callables used in where clauses and derived attributes do not change the population',
-               'no associations in the generated models (navigation is covered by C04); reals are not generated',
+               'one simple association B many - A one in the generated models (reflexive / association-class navigation is covered by C04); reals are not generated',
                'enumerator and constant names are not Python keywords; constants are canonical numerals / true|false / plain strings']
 TRUSTED_EXTRA = ['bridgepoint.oal.parse parses every body for BOTH sides',
                  'the population is created through Domain.new after mk_component with an IntegerGenerator installed as domain.id_generator']
@@ -596,6 +600,34 @@ def add_shadow(rng, callables):
     return sig
 
 
+def add_clash(rng, callables, enums, consts):
+    """the cross-kind family: a CONSTANT (or an ENUMERATION) named like a function.  Functions (`::f()`), constants (`f`)
+    and enumerations (`f::x`) are told apart by the syntax of the reference; the caller uses both."""
+    r = rng
+    targets = [c for c in callables if c['kind'] == 'function' and c['ret'] == 'integer' and not c.get('recursive')]
+    if not targets:
+        return None
+    c = r.choice(targets)
+    args = []
+    for n, t in c['params']:
+        lit = {'integer': ['int', r.choice([0, 1, 2])], 'string': ['str', r.choice(G.STRINGS)], 'boolean': ['bool', r.random() < 0.5]}[t]
+        args.append([n, lit])
+    call = ['callf', c['name'], args]
+    if r.random() < 0.5 or not enums:
+        consts.append((c['name'], 'integer', '7'))
+        other = ['var', c['name']]
+        what = 'constant'
+    else:
+        names = list(enums[0][1])
+        enums.append((c['name'], names))
+        other = ['enum', c['name'], names[-1]]
+        what = 'enumeration'
+    body = [['assign', 'v1', call], ['return', ['bin', '+', ['var', 'v1'], other]]]
+    sig = _sig('function', 'clash', None, [], 'integer', c['pure'])
+    sig.update(recursive=False, level=1 + max(x['level'] for x in callables), body=body, text=G.render(body), clash=what)
+    return sig
+
+
 def generate(ctx):
     n = ctx.pick(800, 15000)
     max_levels = ctx.pick(4, 5)
@@ -615,6 +647,12 @@ def generate(ctx):
                 callables.append(sh)
                 entries = [['fn', 'shadow', {}]]
                 family = 'shadow'
+        if i % 50 == 23:
+            cl = add_clash(r.fork('clash'), callables, enums, consts)
+            if cl is not None:
+                callables.append(cl)
+                entries = [['fn', 'clash', {}]]
+                family = 'clash'
         if not entries:
             continue
         ctx.count('generated')
@@ -686,10 +724,11 @@ def run_impl(case):
     calls = {'n': 0, 'depth': 0, 'max': 0, 'kinds': {}}
     _CALLS = calls
     values = []
-    if case.get('family') == 'shadow':
-        # the one family whose failure has a name of its own
+    if case.get('family') in ('shadow', 'clash'):
+        # the families whose failure has a name of its own
+        fam = case['family']
         try:
-            v = domain.find_symbol('shadow')()
+            v = domain.find_symbol(fam)()
             err = None
         except (TypeError, AttributeError) as ex:
             v, err = None, '%s: %s' % (type(ex).__name__, ex)
@@ -698,14 +737,20 @@ def run_impl(case):
         obs = canon_impl(domain, [v])
         fails = []
         exp = case.get('expect')
-        if err is not None or (exp is not None and obs != exp):
-            fails.append({'sig': 'invocation-shadowed-by-local-variable',
-                          'what': 'a local variable named like the function / external entity it invokes shadows it: %s\n%s' % (
-                              err or ('delivered %r, the bodies specify %r' % (obs[1], exp[1])),
-                              '\n'.join('--- %s %s\n%s' % (c['kind'], c['name'], c['text']) for c in case['callables']))})
+        if exp is None:
+            raise RuntimeError('case %r carries no expectation of the reference semantics' % (case.get('id'),))
+        if err is not None or obs != exp:
+            sig, lead = {'shadow': ('invocation-shadowed-by-local-variable',
+                                    'a local variable named like the function / external entity it invokes shadows it'),
+                         'clash': ('cross-kind-name-clash',
+                                   'a constant / enumeration named like a function hides it (or is hidden by it): one symbol '
+                                   'dictionary for functions, enumerations, constants and external entities')}[fam]
+            fails.append({'sig': sig,
+                          'what': '%s: %s\n%s' % (lead, err or ('delivered %r, the bodies specify %r' % (obs[1], exp[1])),
+                                                  '\n'.join('--- %s %s\n%s' % (c['kind'], c['name'], c['text']) for c in case['callables']))})
             if err is not None:
-                obs = case.get('expect') or obs       # the correspondence is not the point of this family
-        return {'obs': obs, 'd_fail': fails, 'nontrivial': True, 'key': case['sql'], 'stats': {'family_shadow': 1}}
+                obs = exp       # the correspondence is not the point of these families
+        return {'obs': obs, 'd_fail': fails, 'nontrivial': True, 'key': case['sql'], 'stats': {'family_' + fam: 1}}
     raised = None
     try:
         for e in case['entries']:
